@@ -167,12 +167,12 @@ def main(tier, seed):
     t0 = time.time()
     results = run_configs(run_config, configs(tier), tier, seed)
     cov = aggregate(results)
-    cov["rule"] = ("1-4 initiators x feature subsets/policies; complete state graph with every (cyc,stb,lock) per initiator "
+    cov["rule"] = ("1-4 initiators x feature subsets/policies, 5-6 (thorough: 5-8) initiators, second elaboration, refused add() in the middle; complete state graph with every (cyc,stb,lock) per initiator "
                    "x every target response; exact next-owner on every edge + SCC/longest-path liveness analysis")
     return finish(PID, tier, seed, "model_checking", cov, ASSUMPTIONS, t0, results, min_explored=int(0.9 * len(results)))
 
 
 ASSUMPTIONS = [
     "Amaranth 0.5.10 front end, build_netlist and Simulator are the trusted base", "rst held at 0",
-    "N <= 4 initiators", "data/address inputs held at one token phase (the next-owner function's structural support is control only)",
+    "N <= 6 (thorough: 8) initiators", "data/address inputs held at one token phase (the next-owner function's structural support is control only)",
 ]
